@@ -1219,7 +1219,10 @@ def join(
     elif right_names & left_names:
         # smallest counter such that no suffixed right name collides with a left name
         cnt = 0
-        while any(name + suffix + (f"_{cnt}" if cnt > 0 else "") in left_names for name in right_names):
+        while any(
+            (new_name := name + suffix + (f"_{cnt}" if cnt > 0 else "")) in left_names or new_name in right_names
+            for name in right_names
+        ):
             cnt += 1
 
         if cnt > 0:
